@@ -56,6 +56,8 @@ func mulU128(a, b uint64) uint64 { return a * b }
 func mathInt(x uint64) int64 { return int64(x) }
 func isnil[T any](s []T) bool { return s == nil }
 func same[T any](a, b T) bool { return reflect.DeepEqual(a, b) }
+func fresh[T any](p *T) bool { return p != nil }
+func isIntegral(x float64) bool { return x == math.Trunc(x) }
 func quant(x float64) int64 { return int64(math.RoundToEven(x)) }
 func pow10(p int) float64 { return math.Pow(10, float64(p)) }
 func truncF(x float64) int64 { return int64(x) }
